@@ -794,6 +794,9 @@ func (g *Gen) evalCall(ctx *specCtx, x *ECall) Val {
 			case BoolV:
 				ts = append(ts, y.T)
 				sorts = append(sorts, "Bool")
+			case RealV:
+				ts = append(ts, y.T)
+				sorts = append(sorts, "Real")
 			case PtrV:
 				ts = append(ts, y.Ref)
 				sorts = append(sorts, "Int")
